@@ -78,6 +78,62 @@ theorem display_parse (pw : Nat) (hpw : pw ∈ pointerWidths) (T : NewtypeDef) (
   rw [h1] at a ⊢
   exact ⟨hn.1.mpr a.1, by rw [hn.2]; exact a.2.1, hv⟩
 
+/-- whatever width, fill, alignment, sign or precision the caller's format spec asks for, the decimal digits are
+    printed intact and contiguously; everything around them is fill, zero padding or a plus sign -/
+theorem display_with_frame (f : FmtSpec) (n : Nat) :
+    ∃ pre post, displayWith f n = pre ++ displayNat n ++ post ∧
+      ∀ c ∈ pre ++ post, c = f.fill ∨ c = '0' ∨ c = '+' := by
+  unfold displayWith padIntegral
+  generalize hs : (if f.plus then ['+'] else []) = sign
+  have hsign : ∀ c ∈ sign, c = '+' := by
+    intro c hc; subst hs; split at hc <;> simp_all
+  simp only
+  cases f.width with
+  | none => exact ⟨sign, [], by simp, by intro c hc; exact .inr (.inr (hsign c (by simpa using hc)))⟩
+  | some w =>
+    simp only
+    by_cases h1 : w ≤ sign.length + (displayNat n).length
+    · rw [if_pos h1]
+      exact ⟨sign, [], by simp, by intro c hc; exact .inr (.inr (hsign c (by simpa using hc)))⟩
+    · rw [if_neg h1]
+      by_cases h2 : f.zero = true
+      · rw [if_pos h2]
+        refine ⟨sign ++ List.replicate (w - (sign.length + (displayNat n).length)) '0', [], by simp, ?_⟩
+        intro c hc
+        simp only [List.append_nil, List.mem_append, List.mem_replicate] at hc
+        rcases hc with hc | hc
+        · exact .inr (.inr (hsign c hc))
+        · exact .inr (.inl hc.2)
+      · rw [if_neg h2]
+        cases f.align.getD .right with
+        | left =>
+          refine ⟨sign, List.replicate (w - (sign.length + (displayNat n).length)) f.fill, by simp, ?_⟩
+          intro c hc
+          simp only [List.mem_append, List.mem_replicate] at hc
+          rcases hc with hc | hc
+          · exact .inr (.inr (hsign c hc))
+          · exact .inl hc.2
+        | right =>
+          refine ⟨List.replicate (w - (sign.length + (displayNat n).length)) f.fill ++ sign, [], by simp, ?_⟩
+          intro c hc
+          simp only [List.append_nil, List.mem_append, List.mem_replicate] at hc
+          rcases hc with hc | hc
+          · exact .inl hc.2
+          · exact .inr (.inr (hsign c hc))
+        | center =>
+          refine ⟨List.replicate ((w - (sign.length + (displayNat n).length)) / 2) f.fill ++ sign,
+            List.replicate ((w - (sign.length + (displayNat n).length) + 1) / 2) f.fill, by simp, ?_⟩
+          intro c hc
+          simp only [List.mem_append, List.mem_replicate] at hc
+          rcases hc with (hc | hc) | hc
+          · exact .inl hc.2
+          · exact .inr (.inr (hsign c hc))
+          · exact .inl hc.2
+
+/-- the plain `{}` spec prints exactly the digits -/
+theorem display_with_default (n : Nat) : displayWith {} n = displayNat n := by
+  simp [displayWith, padIntegral]
+
 /-- MIN, MAX and Default have the numeric values 0, max, 0.  Equality and ordering are `derive`d on the
     one-field tuple struct: the model of that derive IS comparison of the payloads (modelled, validated by
     exhaustive correspondence), so they agree with the numeric order by construction. -/
@@ -87,5 +143,7 @@ theorem consts_numeric (T : NewtypeDef) : T.minConst = 0 ∧ T.maxConst = T.max 
 example : IsNumeral ['+', '0', '0', '7'] ∧ numeralValue ['+', '0', '0', '7'] = 7 := by
   refine ⟨⟨by simp, by decide⟩, by decide⟩
 example : displayNat 16383 = ['1', '6', '3', '8', '3'] := by decide +kernel
+example : displayWith { plus := true, zero := true, width := some 7 } 42 = ['+', '0', '0', '0', '0', '4', '2'] := by decide +kernel
+example : displayWith { fill := '*', align := some .center, width := some 5 } 7 = ['*', '*', '7', '*', '*'] := by decide +kernel
 
 end Midi.Props.C05
